@@ -1201,8 +1201,7 @@ Section Abstract.
       destruct un, k; cbn in Hm;
         repeat match type of Hm with context [if ?c then _ else _] => destruct c end;
         try discriminate; inversion Hm; subst m;
-        first [apply (lk_un _ "polarity") | apply (lk_un _ "unpolarity") | apply (lk_un _ "hodge") | apply (lk_un _ "unhodge")];
-        cbn; auto 10. }
+        match goal with |- is_un ?nm = true => apply (lk_un nm nm) end; cbn; auto 10. }
     rewrite Em in St. exact St.
   Qed.
 
@@ -1229,4 +1228,169 @@ Section Abstract.
     cbn [is_rnum andb sup_infix] in St2. exact St2.
   Qed.
   End G1.
+
+  (* a plain value is trivially simulated by a recorder that reads it from its own environment: used to
+     obtain well-formedness of the plain result when the real recorder has already raised *)
+  Lemma DS_self (x : vl) i pre : wfv x -> length pre = i ->
+    DS (pre ++ [vals (as_mv x)])%list x (RRec (keys (as_mv x)) (TArg i)).
+  Proof.
+    intros Hw Hi. split; [exact Hw|]. exists (vals (as_mv x)). cbn.
+    rewrite nth_error_app2 by lia. subst i. rewrite Nat.sub_diag. cbn.
+    split; [reflexivity|]. split; [rewrite length_vals, length_keys; reflexivity|].
+    rewrite combine_keys_vals. apply Permutation_refl.
+  Qed.
+  Lemma DS_ext venv1 venv2 (v : vl) ks i : nth_error venv1 i = nth_error venv2 i ->
+    DS venv1 v (RRec ks (TArg i)) -> DS venv2 v (RRec ks (TArg i)).
+  Proof. intros E [Hk [vs [Hr H]]]. split; [exact Hk|]. exists vs. cbn in *. rewrite <- E. auto. Qed.
+
+  Lemma existsb_rnum_all_some (rs : list rv) : all_some (map rkeys rs) = None -> existsb is_rnum rs = true.
+  Proof.
+    induction rs as [|r rs IH]; cbn; [discriminate|]. destruct r as [c|ks t]; cbn; [reflexivity|].
+    destruct (all_some (map rkeys rs)); [discriminate|]. intros _. apply IH. reflexivity.
+  Qed.
+
+  Lemma call_args_values venv' vs kts : Forall2 (DS venv') vs (map mk kts) ->
+    exists xs', Forall2 (fun v x' => Permutation (as_mv v) x') vs xs' /\ map keys xs' = map fst kts /\
+                mapM (run venv') (map snd kts) = Ok (map vals xs').
+  Proof.
+    revert vs. induction kts as [|[ks t] kts IH]; intros vs H; inversion H as [|v ? vs0 ? Hd Hr]; subst.
+    - exists []. repeat split; constructor.
+    - destruct (IH vs0 Hr) as [xs' [F [Ek Em]]]. unfold mk in Hd. cbn [fst snd] in Hd. destruct Hd as [Hk [a [Ha [Hl Hp]]]].
+      exists (combine ks a :: xs'). split; [constructor; assumption|]. cbn [map fst snd mapM].
+      rewrite keys_combine, vals_combine by exact Hl. rewrite Ek, Ha. cbn [bind]. rewrite Em. cbn [bind]. auto.
+  Qed.
+
+  (* G1 *)
+  Theorem agree_gen : forall fuel e env env' v,
+    Forall wfm env -> Forall2 (@Permutation (Z * R)) env env' -> noswap e = true ->
+    dir fuel env e = Ok v ->
+    Step (map vals env') v (rec_ fuel (map keys env') e) (isnum e) (supported e).
+  Proof.
+    induction fuel as [|fu IH]; intros e env env' v Hw Hp Hns H; [discriminate|].
+    set (venv' := map vals env'). set (kenv' := map keys env').
+    assert (U1 : forall (F : vl -> res vl) (G : rv -> res rv) e1 (nbf supf : bool -> bool),
+              (forall ve v0 r v1, wfv v0 -> DS ve v0 r -> F v0 = Ok v1 -> Step ve v1 (G r) (nbf (is_rnum r)) (supf (is_rnum r))) ->
+              noswap e1 = true -> (x <- dir fu env e1 ;; F x) = Ok v ->
+              Step venv' v (x <- rec_ fu kenv' e1 ;; G x) (nbf (isnum e1)) (supported e1 && supf (isnum e1))).
+    { intros F G e1 nbf supf HF Hn1 H1. inv_bindn H1 as x Hx.
+      destruct (IH e1 env env' x Hw Hp Hn1 Hx) as [Hwx M]. fold venv' kenv' in M.
+      destruct (rec_ fu kenv' e1) as [r1|er]; cbn [bind].
+      - destruct M as [Dx Sx]. rewrite <- Sx. apply Step_weaken. exact (HF venv' x r1 v Hwx Dx H1).
+      - split; [|rewrite M; reflexivity].
+        exact (proj1 (HF _ x _ v Hwx (DS_self x 0%nat [] Hwx eq_refl) H1)). }
+    assert (U2 : forall (F : vl -> vl -> res vl) (G : rv -> rv -> res rv) e1 e2 (nbf supf : bool -> bool -> bool),
+              (forall ve v1 v2 r1 r2 v0, wfv v1 -> wfv v2 -> DS ve v1 r1 -> DS ve v2 r2 -> F v1 v2 = Ok v0 ->
+                 Step ve v0 (G r1 r2) (nbf (is_rnum r1) (is_rnum r2)) (supf (is_rnum r1) (is_rnum r2))) ->
+              noswap e1 = true -> noswap e2 = true ->
+              (x <- dir fu env e1 ;; y <- dir fu env e2 ;; F x y) = Ok v ->
+              Step venv' v (x <- rec_ fu kenv' e1 ;; y <- rec_ fu kenv' e2 ;; G x y) (nbf (isnum e1) (isnum e2))
+                   (supported e1 && (supported e2 && supf (isnum e1) (isnum e2)))).
+    { intros F G e1 e2 nbf supf HF Hn1 Hn2 H1. inv_bindn H1 as x Hx. inv_bindn H1 as y Hy.
+      destruct (IH e1 env env' x Hw Hp Hn1 Hx) as [Hwx M1]. destruct (IH e2 env env' y Hw Hp Hn2 Hy) as [Hwy M2].
+      fold venv' kenv' in M1, M2.
+      assert (Hwv : wfv v).
+      { refine (proj1 (HF [vals (as_mv x); vals (as_mv y)] x y (RRec (keys (as_mv x)) (TArg 0)) (RRec (keys (as_mv y)) (TArg 1))
+                             v Hwx Hwy _ _ H1)).
+        - apply (DS_ext ([] ++ [vals (as_mv x)])%list _ x (keys (as_mv x)) 0%nat); [reflexivity|]. exact (DS_self x 0%nat [] Hwx eq_refl).
+        - apply (DS_ext ([vals (as_mv x)] ++ [vals (as_mv y)])%list _ y (keys (as_mv y)) 1%nat); [reflexivity|].
+          exact (DS_self y 1%nat [vals (as_mv x)] Hwy eq_refl). }
+      destruct (rec_ fu kenv' e1) as [r1|er]; cbn [bind].
+      - destruct M1 as [Dx Sx]. destruct (rec_ fu kenv' e2) as [r2|er]; cbn [bind].
+        + destruct M2 as [Dy Sy]. rewrite <- Sx, <- Sy. apply Step_weaken, Step_weaken.
+          exact (HF venv' x y r1 r2 v Hwx Hwy Dx Dy H1).
+        + split; [exact Hwv|]. rewrite M2. cbn. apply andb_false_r.
+      - split; [exact Hwv|]. rewrite M1. reflexivity. }
+    destruct e; cbn [direct] in H; cbn [record isnum supported]; cbn [noswap] in Hns.
+    - (* EArg *)
+      inv_bindn H as x Hx. inversion H; subst v. clear H.
+      destruct (nth_error env i) as [x0|] eqn:En; cbn in Hx; [|discriminate]. inversion Hx; subst x0.
+      destruct (Forall2_nth _ _ _ i x Hp En) as [x' [En' Hpx]].
+      unfold kenv'. rewrite (map_nth_error keys i env' En'). cbn [of_opt bind].
+      assert (Hwx : wfm x) by exact (Forall_nth _ _ _ _ Hw En).
+      apply Step_ok; [exact Hwx | | reflexivity].
+      split; [exact (wfm_perm x x' Hwx Hpx)|]. exists (vals x'). cbn. unfold venv'. rewrite (map_nth_error vals i env' En'). cbn.
+      split; [reflexivity|]. split; [rewrite length_vals, length_keys; reflexivity|]. rewrite combine_keys_vals. exact Hpx.
+    - (* ENum *) inversion H; subst. apply Step_ok; [apply wfv_num | reflexivity | reflexivity].
+    - (* EMeth1 *)
+      exact (U1 _ _ e (fun _ => false) (fun nb => negb nb && is_un m) (fun ve v0 r v1 => ds_meth1 ve m v0 r v1) Hns H).
+    - (* EMeth2 *)
+      apply andb_true_iff in Hns. destruct Hns as [Hns Hn2]. apply andb_true_iff in Hns. destruct Hns as [Hnm Hn1].
+      exact (U2 _ _ e1 e2 (fun _ _ => false) (fun nb _ => negb nb && is_bin m)
+                (fun ve v1 v2 r1 r2 v0 a b c d => ds_meth2 ve m v1 v2 r1 r2 v0 a b c d Hnm) Hn1 Hn2 H).
+    - (* EPrefix *)
+      exact (U1 _ _ e (fun nb => nb && is_neg u) (fun nb => if nb then is_neg u else true)
+                (fun ve v0 r v1 => ds_prefix ve u v0 r v1) Hns H).
+    - (* EInfix *)
+      apply andb_true_iff in Hns. destruct Hns as [Hn1 Hn2].
+      exact (U2 _ _ e1 e2 andb (sup_infix o) (fun ve v1 v2 r1 r2 v0 => ds_infix ve o v1 v2 r1 r2 v0) Hn1 Hn2 H).
+    - exact (U1 _ _ e (fun _ => false) negb (fun ve v0 r v1 => ds_pow ve n v0 r v1) Hns H).
+    - exact (U1 _ _ e (fun _ => false) negb (fun ve v0 r v1 => ds_grade ve gs v0 r v1) Hns H).
+    - exact (U1 _ _ e (fun _ => false) negb (fun ve v0 r v1 => ds_getattr ve nm v0 r v1) Hns H).
+    - exact (U1 _ _ e (fun _ => false) negb (fun ve v0 r v1 => ds_dual ve false k v0 r v1) Hns H).
+    - exact (U1 _ _ e (fun _ => false) negb (fun ve v0 r v1 => ds_dual ve true k v0 r v1) Hns H).
+    - exact (U1 _ _ e (fun _ => false) negb (fun ve v0 r v1 => ds_norm ve v0 r v1) Hns H).
+    - exact (U1 _ _ e (fun _ => false) negb (fun ve v0 r v1 => ds_normalized ve v0 r v1) Hns H).
+    - (* ECall *)
+      inv_bindn H as vs Hvs. inv_bindn H as m Hm. inversion H; subst v. clear H.
+      assert (HA : forall args0 vs0, forallb noswap args0 = true -> mapM (dir fu env) args0 = Ok vs0 ->
+                 Forall wfv vs0 /\
+                 match mapM (rec_ fu kenv') args0 with
+                 | Err _ => forallb (fun a => supported a && negb (isnum a)) args0 = false
+                 | Ok rs => Forall2 (DS venv') vs0 rs /\
+                            (existsb is_rnum rs = true -> forallb (fun a => supported a && negb (isnum a)) args0 = false)
+                 end).
+      { intros args0. induction args0 as [|a0 args0 IHa]; intros vs0 Hn0 Hm0; cbn [mapM forallb] in *.
+        - inversion Hm0; subst. split; [constructor|]. split; [constructor | discriminate].
+        - apply andb_true_iff in Hn0. destruct Hn0 as [Hna Hn0].
+          inv_bindn Hm0 as y0 Hy0. inv_bindn Hm0 as ys Hys. inversion Hm0; subst vs0. clear Hm0.
+          destruct (IH a0 env env' y0 Hw Hp Hna Hy0) as [Hwy M]. fold venv' kenv' in M.
+          destruct (IHa ys Hn0 Hys) as [Hwys Mys].
+          split; [constructor; assumption|].
+          destruct (rec_ fu kenv' a0) as [r0|er]; cbn [bind].
+          + destruct M as [D0 S0]. destruct (mapM (rec_ fu kenv') args0) as [rs|er]; cbn [bind].
+            * destruct Mys as [Ds Es]. split; [constructor; assumption|]. cbn [existsb]. intros He.
+              apply orb_true_iff in He. destruct He as [He|He].
+              -- rewrite <- S0, He. cbn. rewrite andb_false_r. reflexivity.
+              -- rewrite (Es He). apply andb_false_r.
+            * rewrite Mys. apply andb_false_r.
+          + rewrite M. reflexivity. }
+      destruct (HA args vs Hns Hvs) as [Hwvs MA].
+      assert (Hwxs : Forall wfm (map as_mv vs)).
+      { clear -Hwvs. induction Hwvs; cbn; constructor; assumption. }
+      assert (Hrefl : Forall2 (@Permutation (Z * R)) (map as_mv vs) (map as_mv vs)).
+      { clear. induction (map as_mv vs); constructor; [apply Permutation_refl | assumption]. }
+      assert (Hwm : wfm m) by exact (proj1 (registered_perm fu k _ _ m Hwxs Hrefl Hm)).
+      destruct (mapM (rec_ fu kenv') args) as [rs|er]; cbn [bind]; [|split; [exact Hwm | exact MA]].
+      destruct MA as [Ds Es].
+      destruct (all_some (map rkeys rs)) as [kts|] eqn:Has.
+      + apply all_some_inv in Has. subst rs.
+        destruct (call_args_values venv' vs kts Ds) as [xs' [Fp [Ek Em]]].
+        assert (Hpx : Forall2 (@Permutation (Z * R)) (map as_mv vs) xs').
+        { clear -Fp. induction Fp; cbn; constructor; assumption. }
+        destruct (registered_perm fu k _ xs' m Hwxs Hpx Hm) as [_ [body [ko' [tb' [vs' [Eb [Er [Erun [Hl [Hk Hpm]]]]]]]]]].
+        rewrite Eb. cbn [of_opt bind]. rewrite <- Ek, Er. cbn [bind].
+        apply Step_ok; [exact Hwm | | reflexivity].
+        split; [exact Hk|]. exists vs'. rewrite run_TCall, Em. cbn [bind]. repeat split; assumption.
+      + split; [exact Hwm|]. apply Es. apply existsb_rnum_all_some. exact Has.
+  Qed.
+
+  (* ---------------- the two clauses of C11 for the registered function g_k ---------------- *)
+  Theorem registered_agrees fuel k body xs v :
+    Forall wfm xs -> nth_error bodies k = Some body -> noswap body = true ->
+    dir fuel xs body = Ok v ->
+    (forall m, reg fuel k xs = Ok m -> Permutation m (as_mv v)) /\
+    (supported body = true -> isnum body = false -> exists m, reg fuel k xs = Ok m /\ Permutation m (as_mv v)).
+  Proof.
+    intros Hw Hb Hns Hd.
+    assert (Hrefl : Forall2 (@Permutation (Z * R)) xs xs).
+    { clear. induction xs; constructor; [apply Permutation_refl | assumption]. }
+    destruct (agree_gen fuel body xs xs v Hw Hrefl Hns Hd) as [Hwv M].
+    unfold registered, compile. rewrite Hb. cbn [of_opt bind].
+    destruct (rec_ fuel (map keys xs) body) as [[c|ks t]|er]; cbn [bind].
+    - split; [intros m Hm; discriminate|]. destruct M as [_ S]. cbn in S. intros _ Hn. congruence.
+    - destruct M as [[Hk [vs [Hr [Hl Hp]]]] _]. rewrite Hr. cbn [bind].
+      split; [intros m Hm; inversion Hm; subst; apply Permutation_sym; exact Hp|].
+      intros _ _. eexists. split; [reflexivity | apply Permutation_sym; exact Hp].
+    - split; [intros m Hm; discriminate|]. intros Hs. congruence.
+  Qed.
 End Abstract.
